@@ -88,6 +88,8 @@ func directedHistories() map[string]History {
 	okRate.Rate, okRate.MaxRate = mulFrac(3, 10), mulFrac(3, 10)
 	out["S9-chain-minimum-commission"] = History{g3, cat(empty(2, 1), []BlockSpec{blk(tx(MsgSpec{Kind: "params", Sender: adminID, Params: &minc}))},
 		[]BlockSpec{blk(tx(lowRate)), blk(tx(okRate))}, empty(2, 1))}
+	out["S10-first-block-messages"] = History{g3, cat([]BlockSpec{blk(tx(sp(user1ID, 0, 12*M, true)), tx(MsgSpec{Kind: "params", Sender: 1, Params: &minc}), tx(rm(2, 1)), tx(sp(adminID, 1, 11*M, false)))}, empty(3, 1))}
+	out["S11-setpower-params-setpower-one-block"] = History{g3, cat(empty(2, 1), []BlockSpec{blk(tx(sp(adminID, 0, 14*M, false)), tx(MsgSpec{Kind: "params", Sender: adminID, Params: &minc}), tx(sp(adminID, 1, 15*M, false)))}, empty(2, 1))}
 	out["S3-non-admin"] = History{g3, cat(empty(1, 1), []BlockSpec{blk(tx(sp(user1ID, 0, 12*M, false)), tx(rm(2, 1)), tx(MsgSpec{Kind: "removepending", Sender: 1, Val: 3}))}, empty(2, 1))}
 	return out
 }
